@@ -48,8 +48,9 @@ def doTemper (par : Bool) (T s f nrep : Nat) (βs offs : List Rat) (nss : List (
   let c0 : List Rep × SwapScript := ((List.range nrep).map fun i => { gid := i, age := 0 }, script)
   let C := if par then parallelContainer R revRoundRobin else serialContainer R
   let x := chunkRun C T s f c0
-  -- `tempering_step` returns before touching anything with <= 1 replica, `parallel_tempering_step` only when empty
-  let showW := if par then decide (1 ≤ nrep) else decide (2 ≤ nrep)
+  -- both `tempering_step` and `parallel_tempering_step` return before touching anything with <= 1 replica
+  -- (the rayon step only since `fix:` f20b8b5, finding F30; before it returned early only when empty)
+  let showW := if par then decide (2 ≤ nrep) else decide (2 ≤ nrep)
   let logStr := renderLog showW x.log
   let perSlot := (List.range nrep).map fun i =>
     let samples := x.samples.map fun row => decRep (row.getD i [])
